@@ -227,13 +227,28 @@ pub fn emit_conv_case<T: Sc>(out: &mut Out, idx: usize, rng: &mut Rng) {
             let repro = f.best_fit.as_ref().map(|b| {
                 b.iter().zip(c.y.iter()).fold(0.0f64, |a, (x, y)| a.max((x.f() - y.f()).abs())) / ymax
             });
+            // coherence of the returned state: a problem freshly built at the parameters the result
+            // REPORTS has residuals; they must be those the result carries (same code, same inputs:
+            // equal bit for bit on a correct library) - max |difference| relative to max |y_w| (round 13)
+            let coh: Option<f64> = {
+                let alpha: Vec<T> = f.nonlinear.iter().copied().collect();
+                let probe2 = Probe::new();
+                let model2 = make_model::<T>(&c.recipe, &alpha, c.built, &probe2);
+                match (guarded(|| build_problem(c.flavour, model2, &c.y, wv.as_ref(), c.eps)), res.as_ref()) {
+                    (Ok(Ok(fresh)), Some(r)) => fresh.res().map(|rf| {
+                        let ywmax = fresh.yw().iter().fold(0.0f64, |a, v| a.max(v.f().abs())).max(1e-300);
+                        r.iter().zip(rf.iter()).fold(0.0f64, |a, (x, y)| a.max((x.f() - y.f()).abs())) / ywmax
+                    }),
+                    _ => None,
+                }
+            };
             let perr = f
                 .nonlinear
                 .iter()
                 .zip(truth.iter())
                 .fold(0.0f64, |a, (x, t)| a.max(((x.f() - t.f()) / t.f()).abs()));
             out.line(&format!(
-                "result {} term={} evals={} ssqfit={} ssqtruth={} maxcos={} repro={} perr={}",
+                "result {} term={} evals={} ssqfit={} ssqtruth={} maxcos={} repro={} perr={} coh={}",
                 if f.ok { "ok" } else { "err" },
                 f.termination,
                 f.evaluations,
@@ -241,7 +256,8 @@ pub fn emit_conv_case<T: Sc>(out: &mut Out, idx: usize, rng: &mut Rng) {
                 hex(ssq_truth),
                 hex(maxcos),
                 repro.map(hex).unwrap_or("none".into()),
-                hex(perr)
+                hex(perr),
+                coh.map(hex).unwrap_or("none".into())
             ));
         }
     }
